@@ -109,6 +109,8 @@ pub enum AbsOp {
     Commit { frac: u16 },
     Finish,
     Update { layout: usize, bits: u16 },
+    /// update-engine that changes ONE thing: option bit 0..=10 toggled, 11 / 12 = the next / previous layout
+    Flip { bit: u8 },
     Restart,
 }
 
@@ -247,6 +249,7 @@ pub fn op_strategy(w: &OpWeights, allow_raw_sel: bool) -> BoxedStrategy<AbsOp> {
             w.update,
             (0usize..3, 0u16..2048).prop_map(|(layout, bits)| AbsOp::Update { layout, bits }).boxed(),
         ),
+        (w.update, (0u8..13).prop_map(|bit| AbsOp::Flip { bit }).boxed()),
         (w.restart, Just(AbsOp::Restart).boxed()),
     ];
     alts.retain(|(w, _)| *w > 0);
@@ -430,6 +433,35 @@ impl<'s> Interp<'s> {
                     return Ok(Ok(()));
                 }
                 let o = Opts::from_bits(*layout, *bits);
+                self.exec(Ev::Update(o.letters()), observe)
+            }
+            AbsOp::Flip { bit } => {
+                if self.ctx.ongoing() {
+                    self.skipped_update += 1;
+                    return Ok(Ok(()));
+                }
+                let mut o = self.ctx.opts;
+                match bit {
+                    0 => o.english = !o.english,
+                    1 => o.psug = !o.psug,
+                    2 => o.fsug = !o.fsug,
+                    3 => o.vowel = !o.vowel,
+                    4 => o.chandra = !o.chandra,
+                    5 => o.kar = !o.kar,
+                    6 => o.reph = !o.reph,
+                    7 => o.numpad = !o.numpad,
+                    8 => o.karorder = !o.karorder,
+                    9 => o.ansi = !o.ansi,
+                    10 => o.smart = !o.smart,
+                    _ => {
+                        let cur = match o.layout {
+                            Layout::Phonetic => 0,
+                            Layout::Probhat => 1,
+                            _ => 2,
+                        };
+                        o.layout = Layout::from_index(cur + if *bit == 11 { 1 } else { 2 });
+                    }
+                }
                 self.exec(Ev::Update(o.letters()), observe)
             }
             AbsOp::Restart => self.exec(Ev::Restart, observe),
